@@ -2,7 +2,6 @@
 not_applicable = {
  "C16": "data-race freedom and schedule independence quantify over goroutine interleavings; sequential function contracts (pre/post/invariant) cannot express or decide them, and no concurrent program logic for Go is available in this sandbox (DESIGN.md section 9, C16)",
  "C07": "byte-level encode/decode round trip and header-flag contracts are not built: they need the bit-vector mode for flag.go and write-through views of the Encoder scratch buffer, which the generator does not have yet; no contract within reach decides the property (DESIGN.md, Status)",
- "C11": "only supporting obligations exist so far (child-index maintenance, handle registration); the deciding clauses (stale-handle mismatch branch of the updater closure leaves the former parent untouched; overwrite/removal deletes the index entry and uninlines the detached child) are not discharged yet, so the property is not claimed",
  "C13": "iterator step contracts are not written yet and the loaded-value iterators would need a bounded stand-in; only the pop bookkeeping of ArrayDataSlab.PopIterate is proved, which does not decide the property",
  "C17": "bulk build / copy / byte-conversion functions (NewArrayFromBatchData, nextLevel*Slabs, copyWithNewSlabID, ByteSliceToByteArray) are not under contract yet",
 }
@@ -79,3 +78,8 @@ add("C20",
     "Child-reference enumeration is complete and order-preserving for ArrayDataSlab, ArrayMetaDataSlab, MapMetaDataSlab and for map elements (single element: key and value; external group: its slab reference; inline group: its nested list).",
     "CheckStorageHealth and getAllChildReferences themselves (graph reachability over an unbounded storage) are not decided; no bounded stand-in is built.",
     "DESIGN.md Status, 9/C20")
+
+add("C11",
+    "Stale-handle re-validation: the updater closures installed on a child (Array.setCallbackWithChild#1, OrderedMap.setCallbackWithChild#1) return found=false with nil error and leave the former parent's slabs, root, child-index map and the pending write set untouched when the tracked index entry is gone (array), when the key is absent (map), or when the element found at the tracked index / key is not a slab or slab reference carrying the child's value id; the array child-index map is maintained exactly under insert/remove for any map iteration order.",
+    "Overwrite/removal deleting the index entry and uninlining the detached child (Array.Set/Remove, OrderedMap.Set/Remove with uninlineStorableIfNeeded) is NOT under contract yet; value-id comparison and the map lookup are abstracted (trusted contracts ValueID.equal, OrderedMap.get).",
+    "DESIGN.md Status, 9/C11")
